@@ -4,8 +4,8 @@
 //! A `Job` is a numbered, deterministic list of cases. The parent (`run_isolated`) splits
 //! `0..n_cases` into batches and runs each batch in a worker process (re-exec of the current
 //! executable with the private subcommand `worker <prop> <tier> <from> <to>`). A worker
-//! * sets RLIMIT_AS (4 GiB) and runs every case in a fresh thread with an 8 MiB stack (the
-//!   platform main-thread default, so a stack overflow is one a user would also get),
+//! * sets RLIMIT_AS (4 GiB) and runs the cases in fresh threads (one per group of 64 cases) with an 8 MiB
+//!   stack (the platform main-thread default, so a stack overflow is one a user would also get),
 //! * writes a progress line `P <idx>` BEFORE running a case and a result line `R <idx> ...` after,
 //! * catches panics with `crate::env::guarded` (inside the job).
 //! The parent enforces a per-case watchdog (time since the last line). When a worker dies (abort,
@@ -24,6 +24,9 @@ use std::sync::atomic::{AtomicUsize, Ordering};
 use std::sync::mpsc;
 use std::sync::Mutex;
 use std::time::{Duration, Instant};
+
+/// Cases per worker thread (see `worker_main`).
+pub const GROUP: usize = 64;
 
 /// What one case produced.
 #[derive(Default)]
@@ -73,6 +76,8 @@ pub struct Summary {
     pub deaths: u64,
     pub hangs: u64,
     pub worker_processes: u64,
+    /// workers lost on a case that then ran to the end both alone and in its thread context (overload, OOM killer)
+    pub transient: u64,
 }
 
 fn tier_name(t: Tier) -> &'static str {
@@ -92,7 +97,59 @@ fn set_limits() {
             rlim_max: 0,
         };
         libc::setrlimit(libc::RLIMIT_CORE, &z);
+        // keep freed memory in the process: giving pages back after every case and faulting them in again
+        // for the next one costs more than the cases themselves
+        libc::mallopt(libc::M_ARENA_MAX, 1);
+        libc::mallopt(libc::M_TRIM_THRESHOLD, 1 << 30);
+        libc::mallopt(libc::M_TOP_PAD, 64 << 20);
+        libc::mallopt(libc::M_MMAP_THRESHOLD, 32 << 20);
     }
+}
+
+/// "msg @ /repo/xlsx/src/import/styles.rs:126" -> "xlsx/src/import/styles.rs:126" (independent of where the
+/// subject's source tree lives, so that a scratch copy gives the same signature).
+pub fn norm_loc(p: &str) -> String {
+    let loc = p.rsplit(" @ ").next().unwrap_or("");
+    for key in ["/xlsx/src/", "/base/src/"] {
+        if let Some(i) = loc.find(key) {
+            return loc[i + 1..].to_string();
+        }
+    }
+    if let Some(i) = loc.find("/registry/src/") {
+        let rest = &loc[i + 14..];
+        return rest.splitn(2, '/').nth(1).unwrap_or(rest).to_string();
+    }
+    if let Some(i) = loc.find("/library/") {
+        return loc[i + 1..].to_string();
+    }
+    loc.to_string()
+}
+
+/// Signature part for a caught panic "msg @ file:line": the normalised location, plus the message shape (digits
+/// and quoted data removed) when the location is not in the subject's own source (a callee without
+/// `#[track_caller]` reports its own line, which says nothing).
+pub fn panic_sig(p: &str) -> String {
+    let at = norm_loc(p);
+    if at.starts_with("xlsx/src/") || at.starts_with("base/src/") {
+        return format!("at={}", at);
+    }
+    let msg = p.rsplitn(2, " @ ").last().unwrap_or("");
+    let mut shape = String::new();
+    let mut in_tick = false;
+    for c in msg.chars() {
+        if c == '`' {
+            in_tick = !in_tick;
+            continue;
+        }
+        if in_tick || c.is_ascii_digit() {
+            continue;
+        }
+        shape.push(c);
+        if shape.len() >= 60 {
+            break;
+        }
+    }
+    format!("at={} msg={}", at, shape.split_whitespace().collect::<Vec<_>>().join(" "))
 }
 
 fn hex(s: &str) -> String {
@@ -103,6 +160,22 @@ fn unhex(s: &str) -> String {
         .filter_map(|i| u8::from_str_radix(&s[2 * i..2 * i + 2], 16).ok())
         .collect();
     String::from_utf8_lossy(&b).to_string()
+}
+
+/// Worker output channel: a block-buffered writer on fd 1 (std's stdout is line-buffered even on a pipe, which
+/// would cost a write syscall per line). Progress lines are flushed before the case starts; result lines leave
+/// the process together with the next progress line (or at the end of the group), i.e. before the next case
+/// starts, so the parent never attributes a death to a finished case.
+fn out_line(line: &str, flush: bool) {
+    use std::os::fd::FromRawFd;
+    static OUT: std::sync::OnceLock<Mutex<std::io::BufWriter<std::fs::File>>> = std::sync::OnceLock::new();
+    let m = OUT.get_or_init(|| Mutex::new(std::io::BufWriter::with_capacity(1 << 16, unsafe { std::fs::File::from_raw_fd(1) })));
+    let mut o = m.lock().unwrap_or_else(|e| e.into_inner());
+    let _ = o.write_all(line.as_bytes());
+    let _ = o.write_all(b"\n");
+    if flush {
+        let _ = o.flush();
+    }
 }
 
 /// Entry of the private subcommand: `worker <prop> <tier> <from> <to>` or
@@ -125,7 +198,6 @@ pub fn worker_main(args: &[String]) -> i32 {
             return 2;
         }
     };
-    let out = std::io::stdout();
     if args[2] == "case" {
         let case: Value = match serde_json::from_str(&unhex(&args[3])) {
             Ok(v) => v,
@@ -134,74 +206,96 @@ pub fn worker_main(args: &[String]) -> i32 {
                 return 2;
             }
         };
-        println!("P 0");
-        let _ = out.lock().flush();
+        out_line("P 0", true);
         let r = crate::env::fresh(|| {
-            let mut stage = |s: &str| {
-                println!("S {}", hex(s));
-                let _ = std::io::stdout().flush();
-            };
+            let mut stage = |s: &str| out_line(&format!("S {}", hex(s)), true);
             job.run_case(&case, &mut stage)
         });
         emit_result(0, r);
-        println!("DONE");
+        out_line("DONE", true);
+        return 0;
+    }
+    if args[2] == "ctx" {
+        // `ctx <from>:<idx>`: re-run the cases from..idx silently in one thread (so that the hash-map state is the
+        // one the batch worker had), then case idx reporting its stages
+        let mut it = args[3].split(':');
+        let from: usize = it.next().and_then(|x| x.parse().ok()).unwrap_or(0);
+        let idx: usize = it.next().and_then(|x| x.parse().ok()).unwrap_or(0);
+        let job_ref = &job;
+        let r = crate::env::fresh(move || {
+            for i in from..idx {
+                let case = job_ref.case_json(i);
+                let mut stage = |_: &str| {};
+                let _ = crate::env::guarded(|| job_ref.run_case(&case, &mut stage));
+            }
+            out_line("P 0", true);
+            let case = job_ref.case_json(idx);
+            let mut stage = |s: &str| out_line(&format!("S {}", hex(s)), true);
+            job_ref.run_case(&case, &mut stage)
+        });
+        emit_result(0, r);
+        out_line("DONE", true);
         return 0;
     }
     let from: usize = args[2].parse().unwrap_or(0);
     let to: usize = args[3].parse().unwrap_or(0);
-    println!("READY");
-    for idx in from..to.min(job.n_cases()) {
-        {
-            let mut o = out.lock();
-            let _ = writeln!(o, "P {}", idx);
-            let _ = o.flush();
-        }
-        let case = job.case_json(idx);
-        let r = crate::env::fresh(|| {
-            let mut stage = |_: &str| {};
-            job.run_case(&case, &mut stage)
+    out_line("READY", true);
+    let to = to.min(job.n_cases());
+    // Cases run in groups of GROUP per fresh 8 MiB thread: a thread per case costs milliseconds here (each new
+    // stack is faulted in and given back), which would dominate sub-millisecond cases. Hash-map order inside a
+    // group is therefore a function of (VERIF_HASH_SEED, group), while a single-case replay starts a fresh thread.
+    let group: usize = GROUP;
+    let mut g = from;
+    while g < to {
+        let g_end = (g + group).min(to);
+        let job_ref = &job;
+        let r = crate::env::fresh(move || {
+            for idx in g..g_end {
+                out_line(&format!("P {}", idx), true);
+                let case = job_ref.case_json(idx);
+                let mut stage = |_: &str| {};
+                let c = crate::env::guarded(|| job_ref.run_case(&case, &mut stage));
+                emit_result(idx, c);
+            }
         });
-        emit_result(idx, r);
+        out_line("", true);
+        if let Err(e) = r {
+            eprintln!("worker: group thread failed: {}", e);
+            return 3;
+        }
+        g = g_end;
     }
-    println!("DONE");
-    let _ = out.lock().flush();
+    out_line("DONE", true);
     0
 }
 
 fn emit_result(idx: usize, r: Result<CaseOut, String>) {
-    let out = std::io::stdout();
-    let mut o = out.lock();
     match r {
         Ok(c) => {
             if c.ds.is_empty() {
-                let _ = writeln!(
-                    o,
-                    "R {} {} {} {:x}",
-                    idx, c.calls, c.nontrivial as u8, c.outcome
-                );
+                out_line(&format!("R {} {} {} {:x}", idx, c.calls, c.nontrivial as u8, c.outcome), false);
             } else {
                 let ds: Vec<Value> = c
                     .ds
                     .iter()
                     .map(|d| json!({"sig": d.sig, "case": d.case, "detail": d.detail}))
                     .collect();
-                let _ = writeln!(
-                    o,
-                    "R {} {} {} {:x} {}",
-                    idx,
-                    c.calls,
-                    c.nontrivial as u8,
-                    c.outcome,
-                    hex(&Value::Array(ds).to_string())
+                out_line(
+                    &format!(
+                        "R {} {} {} {:x} {}",
+                        idx,
+                        c.calls,
+                        c.nontrivial as u8,
+                        c.outcome,
+                        hex(&Value::Array(ds).to_string())
+                    ),
+                    false,
                 );
             }
         }
-        Err(e) => {
-            // a panic that escaped the job's own guards (harness or subject): reported by the parent
-            let _ = writeln!(o, "E {} {}", idx, hex(&e));
-        }
+        // a panic that escaped the job's own guards (harness or subject): reported by the parent
+        Err(e) => out_line(&format!("E {} {}", idx, hex(&e)), false),
     }
-    let _ = o.flush();
 }
 
 enum Line {
@@ -411,12 +505,21 @@ pub struct Diagnosis {
 
 /// Runs `case` alone in a subprocess reporting stages. Used for dead/hung cases and for replay.
 pub fn diagnose(prop: &str, tier: Tier, case: &Value, watchdog_s: f64) -> Diagnosis {
+    diagnose_with(prop, tier, "case", &hex(&case.to_string()), watchdog_s)
+}
+
+/// Runs case `idx` after the cases `from..idx` of the same worker thread (same hash-map state as in the batch).
+pub fn diagnose_in_context(prop: &str, tier: Tier, from: usize, idx: usize, watchdog_s: f64) -> Diagnosis {
+    diagnose_with(prop, tier, "ctx", &format!("{}:{}", from, idx), watchdog_s)
+}
+
+fn diagnose_with(prop: &str, tier: Tier, mode: &str, arg: &str, watchdog_s: f64) -> Diagnosis {
     let mut dg = Diagnosis {
         ds: vec![],
         lost: None,
         machinery: None,
     };
-    let mut ch = match spawn(prop, tier, "case", &hex(&case.to_string())) {
+    let mut ch = match spawn(prop, tier, mode, arg) {
         Ok(c) => c,
         Err(e) => {
             dg.machinery = Some(e);
@@ -454,8 +557,15 @@ pub fn diagnose(prop: &str, tier: Tier, case: &Value, watchdog_s: f64) -> Diagno
                 if !finished {
                     if begun {
                         let tail: Vec<&str> = err.lines().rev().take(4).collect();
+                        let reason = if err.contains("overflowed its stack") {
+                            " (stack overflow)"
+                        } else if err.contains("memory allocation of") {
+                            " (allocation failure)"
+                        } else {
+                            ""
+                        };
                         dg.lost = Some((
-                            format!("abort {} entry={}", st, stage),
+                            format!("abort {}{} entry={}", st, reason, stage),
                             format!(
                                 "the worker process died ({}) while running entry point `{}`; stderr: {}",
                                 st,
@@ -540,6 +650,9 @@ pub fn run_isolated(run: &mut Run, prop: &str, n_cases: usize, case_of: &(dyn Fn
                                 agg.sum.cases_run += 1;
                                 let case = case_of(idx);
                                 let dg = diagnose(prop, tier, &case, opts.watchdog_s);
+                                if let Some(m) = dg.machinery {
+                                    agg.errs.push(m);
+                                }
                                 match dg.lost {
                                     Some((sig, detail)) => agg.ds.push(Disagreement {
                                         sig,
@@ -547,20 +660,32 @@ pub fn run_isolated(run: &mut Run, prop: &str, n_cases: usize, case_of: &(dyn Fn
                                         detail,
                                     }),
                                     None => {
-                                        // did not reproduce alone: report what the batch saw
-                                        agg.ds.push(Disagreement {
-                                            sig: format!(
-                                                "{} entry=<not reproduced alone>",
-                                                if hung { "hang".to_string() } else { format!("abort {}", status) }
-                                            ),
-                                            case: case.clone(),
-                                            detail: format!("worker lost on case {} ({}) but the case ran to the end alone", idx, status),
-                                        });
+                                        // ran to the end alone: what it found alone counts, and the loss is looked
+                                        // for again in the context of its worker thread (hash-map order can decide
+                                        // which of several defects an input meets first)
                                         agg.ds.extend(dg.ds);
+                                        let gstart = from + ((idx - from) / GROUP) * GROUP;
+                                        let dg2 = diagnose_in_context(prop, tier, gstart, idx, opts.watchdog_s * 2.0);
+                                        match dg2.lost {
+                                            Some((sig, detail)) => {
+                                                let mut c = case.clone();
+                                                c["context"] = json!({"tier": tier_name(tier), "from": gstart, "idx": idx});
+                                                agg.ds.push(Disagreement {
+                                                    sig,
+                                                    case: c,
+                                                    detail: format!(
+                                                        "{}\n(reproduced only after the {} preceding cases of its worker thread: which code the input meets first depends on hash-map order; alone the case ends normally)",
+                                                        detail,
+                                                        idx - gstart
+                                                    ),
+                                                });
+                                            }
+                                            None => {
+                                                agg.sum.transient += 1;
+                                                let _ = (hung, &status);
+                                            }
+                                        }
                                     }
-                                }
-                                if let Some(m) = dg.machinery {
-                                    agg.errs.push(m);
                                 }
                                 from = idx + 1;
                             }
@@ -583,6 +708,7 @@ pub fn run_isolated(run: &mut Run, prop: &str, n_cases: usize, case_of: &(dyn Fn
                 t.sum.deaths += agg.sum.deaths;
                 t.sum.hangs += agg.sum.hangs;
                 t.sum.worker_processes += agg.sum.worker_processes;
+                t.sum.transient += agg.sum.transient;
                 t.sum.outcomes.extend(agg.sum.outcomes);
             });
         }
@@ -611,7 +737,13 @@ pub fn run_isolated(run: &mut Run, prop: &str, n_cases: usize, case_of: &(dyn Fn
 /// Replays one case in a diagnose subprocess (so that an aborting case cannot kill the replayer).
 pub fn replay_isolated(prop: &str, case: &Value, watchdog_s: f64) -> Vec<Disagreement> {
     // the tier only selects the case list; a self-contained case does not depend on it
-    let dg = diagnose(prop, Tier::Quick, case, watchdog_s);
+    let dg = match (case["context"]["from"].as_u64(), case["context"]["idx"].as_u64()) {
+        (Some(f), Some(i)) => {
+            let tier = if case["context"]["tier"].as_str() == Some("thorough") { Tier::Thorough } else { Tier::Quick };
+            diagnose_in_context(prop, tier, f as usize, i as usize, watchdog_s * 2.0)
+        }
+        _ => diagnose(prop, Tier::Quick, case, watchdog_s),
+    };
     let mut ds = dg.ds;
     if let Some((sig, detail)) = dg.lost {
         ds.push(Disagreement {
@@ -725,8 +857,8 @@ pub fn selftest() -> i32 {
         && s.deaths == 2
         && s.hangs == 1
         && sigs.len() == 4
-        && sigs.iter().any(|s| s.starts_with("abort") && s.ends_with("entry=overflow"))
-        && sigs.iter().any(|s| s.starts_with("abort") && s.ends_with("entry=alloc"))
+        && sigs.iter().any(|s| s.starts_with("abort") && s.contains("(stack overflow)") && s.ends_with("entry=overflow"))
+        && sigs.iter().any(|s| s.starts_with("abort") && s.contains("(allocation failure)") && s.ends_with("entry=alloc"))
         && sigs.iter().any(|s| s == "hang entry=spin")
         && run.machinery_errors.is_empty();
     println!("{}", if ok { "SELFTEST OK" } else { "SELFTEST FAILED" });
